@@ -118,10 +118,11 @@ def close_obj(obj):
         pass
 
 
-def fresh_outcome(fs, opener, call, path=FPATH):
+def fresh_outcome(fs, opener, call, path=FPATH, clear=True):
     """Opens a fresh object, applies one call, closes.  The open itself may raise: that is the
-    outcome then."""
-    clear_caches()
+    outcome then.  clear=False: the process-wide state of the library is left as earlier calls left it."""
+    if clear:
+        clear_caches()
     try:
         obj = open_obj(fs, opener, path)
     except core.SimAbort:
